@@ -121,7 +121,7 @@ PROPS = {
     },
     "C09": {
         "title": "progress",
-        "rules": [r_live.rule_live, r_live.rule_amt_pub, r_ticket.rule_gate, r_state.rule_done],
+        "rules": [r_live.rule_live, r_live.rule_amt_pub, r_ticket.rule_gate, r_state.rule_done, r_live.rule_unw],
         "explanation": "LIVE.a: no function reachable from a pull of a known-size source contains a loop on an atomic load or a "
                        "blocking std call (complete decision of 'never waits'); LIVE.b: wait loops of the wrapper re-read "
                        "now-serving and exit on Equal, Less and the end flag; LIVE.c: from every admission every normal path to "
